@@ -2,6 +2,7 @@ import Librfn.Driver.Pure
 import Librfn.Driver.Mlog
 import Librfn.Driver.Hex
 import Librfn.Driver.List
+import Librfn.Driver.Ring
 
 def main (args : List String) : IO UInt32 :=
   match args with
@@ -9,4 +10,5 @@ def main (args : List String) : IO UInt32 :=
   | "mlog" :: rest => Librfn.Driver.Mlog.main rest
   | "hex" :: rest => Librfn.Driver.Hex.main rest
   | "list" :: rest => Librfn.Driver.List.main rest
+  | "ring" :: rest => Librfn.Driver.Ring.main rest
   | _ => do IO.eprintln "usage: librfn_model <engine> [args]"; return 2
